@@ -64,15 +64,16 @@ class VisitPE(pe.PE):
 
     def init_mem(self, state, base, path, t):
         # symbolic insertion-ordered list: table.head -> entry0 -> entry1 ...
-        if base == "table" and path == (2,):
+        el, fl = pe.fields_of(path)
+        if base == "table" and el == 0 and fl == (2,):
             return ("ptr", "entry0", ()) if self.n > 0 else pe.C(0)
-        if base.startswith("entry"):
+        if base.startswith("entry") and el == 0:
             k = int(base[5:])
-            if path == (3,):
+            if fl == (3,):
                 return ("ptr", "entry%d" % (k + 1), ()) if k + 1 < self.n else pe.C(0)
-            if path == () or path == (0,):
+            if fl == ():
                 return ("sym", "key", k)
-            if path == (2,):
+            if fl == (2,):
                 return ("sym", "val", k)
         return pe.TOP
 
